@@ -52,6 +52,7 @@ func FBP(reftree *tree.Tree, boottrees <-chan tree.Trees, cpus int, sup *Support
 			defer wg.Done()
 			var inerr error
 			for treeV := range boottrees {
+				tree.VerifYield()
 				edgeIndex := tree.NewEdgeIndex(uint64(len(edges)*2), 0.75)
 				if sup.Canceled() {
 					break
@@ -70,6 +71,7 @@ func FBP(reftree *tree.Tree, boottrees <-chan tree.Trees, cpus int, sup *Support
 					}
 					atomic.AddInt32(&ntrees, 1)
 					edges2 := treeV.Tree.Edges()
+					tree.VerifYield()
 					for i, e2 := range edges2 {
 						if !e2.Right().Tip() {
 							if inerr = edgeIndex.PutEdgeValue(e2, i, e2.Length()); inerr != nil {
@@ -81,6 +83,7 @@ func FBP(reftree *tree.Tree, boottrees <-chan tree.Trees, cpus int, sup *Support
 					for i, e := range edges {
 						_, ok := edgeIndex.Value(e)
 						if ok {
+							tree.VerifYield()
 							foundEdges <- i
 						}
 					}
